@@ -235,9 +235,17 @@ fn act_typed<T: DNSIterable + TypedIterable>(item: &mut T, a: &Act, out: &mut Ve
     match a {
         Act::Name => out.push(format!("n={}", hex(&item.name()))),
         Act::RawName => {
+            // the accessor APPENDS to the caller's vector and returns the length of the name: called on an empty vector and on
+            // one that already holds bytes, the appended bytes and the returned length must be the same
             let mut v = Vec::new();
             let l = item.copy_raw_name(&mut v);
-            out.push(format!("r={}/{}", hex(&v), l));
+            let mut w = vec![0xaau8, 0xbb, 0xcc, 0xdd, 0xee];
+            let l2 = item.copy_raw_name(&mut w);
+            if w.len() < 5 || w[..5] != [0xaau8, 0xbb, 0xcc, 0xdd, 0xee] || w[5..] != v[..] || l2 != l {
+                out.push(format!("r={}/{}!appending-to-a-non-empty-vector:{}/{}", hex(&v), l, hex(&w), l2));
+            } else {
+                out.push(format!("r={}/{}", hex(&v), l));
+            }
         }
         Act::Type => out.push(format!("t={}", item.rr_type())),
         Act::Class => out.push(format!("c={}", item.rr_class())),
